@@ -302,16 +302,18 @@ fn contained_subtype(input: Input<'_>) -> ParserResult<'_, SubtypeElements> {
 fn value_range(input: Input<'_>) -> ParserResult<'_, SubtypeElements> {
     opt_delimited(
         skip_ws_and_comments(char(LEFT_PARENTHESIS)),
-        skip_ws_and_comments(map(
+        skip_ws_and_comments(map_res(
             (
-                terminated(
+                pair(
                     alt((value(None, tag(MIN)), map(asn1_value, Some))),
-                    skip_ws_and_comments(opt(char(GREATER_THAN))),
+                    // `a<..b`: the lower endpoint itself is excluded
+                    skip_ws_and_comments(opt(char(LESS_THAN))),
                 ),
                 preceded(
                     range_seperator,
-                    preceded(
-                        opt(char(LESS_THAN)),
+                    pair(
+                        // `a..<b`: the upper endpoint itself is excluded
+                        skip_ws_and_comments(opt(char(LESS_THAN))),
                         skip_ws_and_comments(alt((value(None, tag(MAX)), map(asn1_value, Some)))),
                     ),
                 ),
@@ -321,10 +323,22 @@ fn value_range(input: Input<'_>) -> ParserResult<'_, SubtypeElements> {
                     extension_additions,
                 ))),
             ),
-            |(min, max, ext)| SubtypeElements::ValueRange {
-                min,
-                max,
-                extensible: ext.is_some(),
+            |((min, min_open), (max_open, max), ext)| {
+                let exclude = |endpoint: Option<ASN1Value>, open: bool, step: i128| match (endpoint, open) {
+                    (endpoint, false) => Ok(endpoint),
+                    (Some(ASN1Value::Integer(i)), true) => i
+                        .checked_add(step)
+                        .map(|i| Some(ASN1Value::Integer(i)))
+                        .ok_or(MiscError("Range endpoint out of bounds.")),
+                    (_, true) => Err(MiscError(
+                        "Open range endpoints are only supported for integer literals.",
+                    )),
+                };
+                Ok::<_, MiscError>(SubtypeElements::ValueRange {
+                    min: exclude(min, min_open.is_some(), 1)?,
+                    max: exclude(max, max_open.is_some(), -1)?,
+                    extensible: ext.is_some(),
+                })
             },
         )),
         skip_ws_and_comments(char(RIGHT_PARENTHESIS)),
